@@ -62,6 +62,14 @@ def c10_equilibrium(rng, tier):
     if rng.uniform() < 0.3:
         wb = True       # wingbox-like section: Iy != Iz strongly
         sec["Iz"] = sec["Iy"] * rng.uniform(3, 20, size=sec["Iy"].shape)
+    if rng.uniform() < 0.4:
+        # cranked, highly swept layout (strake / delta): elements up to ~72 deg from the y axis, i.e. close to (not on) the global
+        # x axis that the local triad uses as reference; with unequal principal inertias the orientation of the triad matters
+        yy = np.abs(nodes[:, 1]); crank = float(rng.uniform(0.2, 0.7)) * max(float(yy.max()), 1e-9)
+        t1 = np.tan(np.radians(rng.uniform(55, 72))); t2 = np.tan(np.radians(rng.uniform(0, 30)))
+        nodes = nodes.copy()
+        nodes[:, 0] += np.where(yy < crank, t1 * yy, t1 * crank + t2 * (yy - crank))
+        sec["Iz"] = sec["Iy"] * rng.uniform(3, 20, size=sec["Iy"].shape)
     ny = nodes.shape[0]
     clamp = ny - 1 if s["symmetry"] else (ny - 1) // 2
     disp = _disp(s, nodes, sec, loads)
@@ -989,3 +997,42 @@ def c03_single_input_history(rng, tier):
                                      sequence=list(state)))
                     return out
     return out
+
+
+# ---------------------------------------------------------------------------------------
+# C10 / C03: a live structural problem whose geometry is mirrored / rotated between runs (same stiffness magnitudes, other signs)
+# ---------------------------------------------------------------------------------------
+def _c10_live_sign_flips(rng, tier):
+    """SpatialBeamAlone with a dihedral design variable: run at +d, then at -d (anhedral: every length, area and inertia is
+    the same, only signs in the stiffness matrix change), then with a thicker wall, and compare each state with a freshly
+    built problem and with the independent frame"""
+    fem = str(rng.choice(["tube", "wingbox"]))
+    s = _as_surface(rng, tier, fem=fem)
+    d0 = float(rng.uniform(3, 12))
+    s["dihedral"] = d0
+    ny = s["mesh"].shape[1]
+    loads = rng.normal(size=(ny, 6)) * 1e4
+    live = pipelines.build_struct_alone(s, loads)
+    out = []
+    seq = []
+    def fresh_at(dih, thk):
+        s2 = dict(s); s2["dihedral"] = dih
+        p = pipelines.build_struct_alone(s2, loads)
+        with quiet():
+            p.set_val(_thk(s)[0], thk); p.run_model()
+        return np.array(p.get_val("wing.disp"))
+    thk = np.array(_thk(s)[1], dtype=float)
+    for dih, tscale in ((d0, 1.0), (-d0, 1.0), (-d0, 1.6), (d0, 1.6)):
+        seq.append((round(dih, 3), tscale))
+        with quiet():
+            live.set_val("wing.geometry.dihedral", dih); live.set_val(_thk(s)[0], thk * tscale); live.run_model()
+        dl = np.array(live.get_val("wing.disp")); df = fresh_at(dih, thk * tscale)
+        if relerr(dl, df) > 1e-8:
+            out.append(_fail("a live structural problem re-run at a mirrored geometry differs from a freshly built problem at that geometry",
+                             dl[:2].ravel()[:6], df[:2].ravel()[:6], fem_model_type=fem, symmetry=s["symmetry"], ny=ny, sequence=list(seq)))
+            break
+    return out
+
+
+oracle("C10", "live_problem_mirrored_geometry")(_c10_live_sign_flips)
+oracle("C03", "live_structure_mirrored_geometry")(_c10_live_sign_flips)
